@@ -37,4 +37,6 @@ func init() {
 		Rule: "a run is non-trivial iff some proposal was made while the proposer's clock was not ahead of the previous block's timestamp (skew or backward step); distinct = distinct ordered delivery sequences"})
 	register(&PropSpec{ID: "C16", Run: simpleRun(DynScenario, func(s *Sim) { s.AddOracle(NewOracleC16(s)); s.AddOracle(NewOracleC01(s)) }),
 		Rule: "a run is non-trivial iff the extension was on with maximum > minimum block time and some proposal with transactions was made strictly inside the extended wait (after minimum + tolerance, before maximum - tolerance), i.e. a transaction arrived during the extended wait and was proposed promptly; distinct = distinct ordered delivery sequences"})
+	register(&PropSpec{ID: "C11", Run: runC11,
+		Rule: "evaluations alternate between (a) hostile cluster runs with inadmissible-input probes and redeliveries injected at tape-chosen points and (b) API fuzz sequences on 1-4 nodes with arbitrary well-typed payloads and callback verdicts; a run of kind (a) is non-trivial iff a probe hit a node that was mid-round (proposal seen, not decided), a run of kind (b) iff at least 20 calls took effect (caused a callback); distinct = distinct ordered input sequences"})
 }
